@@ -71,6 +71,7 @@ class Sim:
         self.crash_after = cfg.get("crash_after")  # byte budget for cache writes
         self.crash_open = cfg.get("crash_open")  # ordinal of the write-open that is never reached
         self.crash_op = cfg.get("crash_op")  # ordinal of the mutating file-system operation that is never reached
+        self.crash_wcall = cfg.get("crash_wcall")  # ordinal of the write() call that is never reached
         self.enospc_after = cfg.get("enospc_after")
         self.now = 0.0
         self.log = []
